@@ -33,6 +33,9 @@ func (c13) Gen(r *Rng, tier string, run int) *Trace {
 		g.emit(Op{Obj: s0, M: "SetNoNesting", Args: []Val{vBool(true)}}, true)
 	}
 	if r.Bool(0.3) {
+		g.emit(Op{Obj: s0, M: "SetMutex"}, true)
+	}
+	if r.Bool(0.3) {
 		g.emit(Op{Obj: c4, M: "SetNoNesting", Args: []Val{vBool(true)}}, true)
 	}
 	// the constructor leaves no error on a valid condition, so expressions are accepted
